@@ -424,6 +424,20 @@ pub fn run(cmd: &str, args: &[&str]) -> String {
                 Err(_) => format!("NOT-JOINED-after-20s best={}", best),
             }
         }
+        ("book", [fen]) => match state_of(fen) {
+            None => "badfen".into(),
+            Some(s) => {
+                let book = weechess_engine::book::OpeningBook::try_default().unwrap();
+                match book.lookup(&s) {
+                    None => "none".into(),
+                    Some(ms) => {
+                        let mut l: Vec<String> = ms.iter().map(|m| { let o: u8 = m.origin().into(); let d: u8 = m.destination().into(); format!("{}/{}/{}", o, d, opt_piece_int(m.promotion())) }).collect();
+                        l.sort();
+                        l.join(";")
+                    }
+                }
+            }
+        },
         ("jitter", [seed, n]) => {
             use rand::{Rng, RngCore, SeedableRng};
             let mut rng = rand_chacha::ChaCha8Rng::seed_from_u64(seed.parse().unwrap());
